@@ -171,7 +171,7 @@ def run_config(chk, config):
     eng = encode_engine(chk, fx)
     X = Extract(eng, a.avp_hide)
     record_engine(chk, eng, "AVP::hide [%s]: %d return paths" % (config, len(X.rets)))
-    chk.add_engine_obligs(eng, ("narrow",), "C07 no truncating cast of a length", only_fns=lambda o: o.fn.endswith("AVP::hide"))
+    chk.add_engine_obligs(eng, ("narrow",), "C07 no truncating cast of a length", allow=octet_extraction, only_fns=lambda o: o.fn.endswith("AVP::hide"))
     dests = set(x["dest"] for x in xor_facts(eng, X, key_facts(eng, X)[1]))
     pf = plaintext_facts(eng, X, dests)
     bad = [p for f in pf for p in f["problems"] if "original-length" in p or "16-bit" in p or "unknown" in p]
